@@ -77,6 +77,9 @@ def correspond(ctx):
 def search(ctx, broken, res0):
     """a proof or the correspondence broke: look for a failing input on the real code, much wider"""
     res = Result()
+    sk.direct(ctx, res, sk.targeted_cases(ctx, res0), oracle_for(res), history=True)      # the schemes named by the break, first
+    if res.violations:
+        return res
     cases = sk.gen_cases(ctx, se.NAMES, ctx.pick(12, 30), scale=3)
     sk.direct(ctx, res, cases, oracle_for(res), history=True)
     return res
